@@ -12,6 +12,7 @@ CONSTANTS
   Live = FALSE
   Mode = "free"
   CancelInLoop = FALSE
+  DropCancels = FALSE
   Emit = FALSE
 INVARIANTS TypeOK ContractHolds AtMostOnce ResultOnlyAfterEnd FinalValueAfterResult MonotoneObserved FlagOnlyByCancel
 VIEW ViewNoHist
